@@ -140,6 +140,32 @@ def body(case, rec):
                 raise Violation(f".fai row {f} != reference {want + [r['width'], r['linebytes']]}")
 
 
+def body_module_cli(case, rec):
+    """`python -m tola.fasta.index <file>` prints the .fai rows"""
+    import subprocess
+    import sys
+
+    from vf.remap import cli_env
+
+    plain = case["fasta"]
+    data = gen.fasta_bytes(plain)
+    cl = classes_of(plain)
+    rec.note(case, nontrivial(cl), cl)
+    recs = ref.read_fasta(data)
+    with fa.TempFasta(data) as path:
+        r = subprocess.run([sys.executable, "-m", "tola.fasta.index", str(path)], capture_output=True, env=cli_env(), timeout=120)
+        if r.returncode != 0:
+            raise Violation(f"python -m tola.fasta.index failed: {r.stderr[-300:]!r}")
+        lines = r.stdout.decode("utf-8", "replace").split("\n")[:-1]
+        if len(lines) != len(recs):
+            raise Violation(f"python -m tola.fasta.index printed {len(lines)} rows for {len(recs)} records")
+        for line, rr in zip(lines, recs):
+            f = line.split("\t")
+            want = [rr["name"], str(len(rr["seq"])), str(rr["offset"])]
+            if f[:3] != want or (rr["linebytes"] is not None and f[3:] != [str(rr["width"]), str(rr["linebytes"])]):
+                raise Violation(f"python -m tola.fasta.index row {f} != reference {want + [rr['width'], rr['linebytes']]}")
+
+
 def body_negative(case, rec):
     kind = case["kind"]
     rec.note(case, True, {kind})
@@ -186,6 +212,8 @@ def negative_cases(draw):
 SUBS = [
     Sub("index", kind="hyp", strategy=cases, body=body,
         budget={"quick": 8000, "thorough": 200000}, desc="index quintuples, random access, derived assembly, stream-back, .fai text vs reference reader"),
+    Sub("module_cli", kind="hyp", strategy=cases, body=body_module_cli, shrink=False,
+        budget={"quick": 96, "thorough": 2000}, desc="`python -m tola.fasta.index FILE` (the module's command-line entry) prints the reference .fai rows"),
     Sub("negative", kind="hyp", strategy=negative_cases, body=body_negative,
         budget={"quick": 800, "thorough": 10000}, desc="duplicate record names and record-less files must be rejected"),
 ]
